@@ -9,6 +9,7 @@ import O2P.Model.Learn
 import O2P.Props.C07
 import O2P.Props.C14
 import O2P.Model.Gate
+import O2P.Model.Writer
 /-!
 Model driver: one JSON request per line on stdin, one JSON reply per line on stdout.
 Numbers that may exceed 2^53 travel as decimal strings.
@@ -679,6 +680,46 @@ def opJudge (j : Json) : Except String Json := do
 
 end GateOps
 
+namespace WriterOps
+open O2P.Writer
+
+def natOf (j : Json) : Except String Nat := match j.getNat? with
+  | .ok k => pure k
+  | .error _ => throw "bad nat"
+
+def op4Of (s : String) : Except String Op4 := match s with
+  | "XOR" => pure .xor | "AND" => pure .and | "OR" => pure .or | "LOOP" => pure .loop
+  | _ => throw "bad operator"
+
+def posOf (s : String) : Except String Pos := match s with
+  | "START" => pure .start | "PATH" => pure .path | "END" => pure .end_
+  | _ => throw "bad position"
+
+/-- {"nodes": [["ev", name, brk] | ["sub", isLoop, graph, brk] | ["oper", pos, op] | ["kill"]], "adj": [[…], …]} -/
+partial def graphOfJson (j : Json) : Except String PGraph := do
+  let ns ← (← getArr j "nodes").toList.mapM fun n => match n with
+    | .arr #[.str "ev", .str name, .bool b] => pure (PNode.ev name b)
+    | .arr #[.str "sub", .bool l, g, .bool b] => do pure (PNode.sub l (← graphOfJson g) b)
+    | .arr #[.str "oper", .str p, .str o] => do pure (PNode.oper (← posOf p) (← op4Of o))
+    | .arr #[.str "kill"] => pure PNode.kill
+    | _ => throw "bad node"
+  let adj ← (← getArr j "adj").toList.mapM fun r => match r with
+    | .arr xs => xs.toList.mapM natOf
+    | _ => throw "bad adjacency"
+  pure (.mk ns adj)
+
+def opWrite (j : Json) : Except String Json := do
+  let g ← graphOfJson (← j.getObjVal? "graph")
+  let name ← getStr j "name"
+  let tab := match j.getObjVal? "tab" with
+    | .ok v => (v.getNat?.toOption.getD 4)
+    | .error _ => 4
+  match writePumlString g name tab with
+  | some t => pure <| Json.mkObj [("text", Json.str t)]
+  | none => pure <| Json.mkObj [("raises", Json.bool true)]
+
+end WriterOps
+
 def handle (j : Json) : Except String Json := do
   let op ← getStr j "op"
   match op with
@@ -700,6 +741,7 @@ def handle (j : Json) : Except String Json := do
   | "gate.cover" => GateOps.opCover j
   | "gate.inferor" => GateOps.opInferOr j
   | "gate.post" => GateOps.opPost j
+  | "wr.write" => WriterOps.opWrite j
   | _ => throw s!"unknown op {op}"
 
 partial def loop (h : IO.FS.Stream) (out : IO.FS.Stream) : IO Unit := do
